@@ -136,7 +136,7 @@ def discharge(obligations, tier='quick', seed=0, workers=None):
         for name, status, model, secs, backend, reason in ex.map(_z3_task, tasks, chunksize=1):
             results[name] = Result(byname[name], status, model, secs, backend, reason, smts[name])
         left = [n for n, r in results.items() if r.status != 'unsat']
-    if left:
+    def portfolio(left, budget):
         ex2 = cf.ProcessPoolExecutor(max_workers=workers)
         try:
             futs = {}
@@ -154,9 +154,9 @@ def discharge(obligations, tier='quick', seed=0, workers=None):
                 variants.append(('z3old', rsmt, 0, True))
                 for kind, text, sd, revealed in variants:
                     if kind == 'z3':
-                        f = ex2.submit(_z3_task, ((n, revealed), text, P2_MS[tier], sd))
+                        f = ex2.submit(_z3_task, ((n, revealed), text, budget, sd))
                     else:
-                        f = ex2.submit(_cli_task, ((n, revealed), text, P2_MS[tier], 'cvc5' if kind == 'cvc5' else 'z3'))
+                        f = ex2.submit(_cli_task, ((n, revealed), text, budget, 'cvc5' if kind == 'cvc5' else 'z3'))
                     futs[f] = n
                 results[n].smt = rsmt
             agg = {n: [] for n in left}
@@ -190,6 +190,12 @@ def discharge(obligations, tier='quick', seed=0, workers=None):
                     p.kill()
                 except Exception:       # noqa
                     pass
+
+    if left:
+        portfolio(left, P2_MS[tier])
+        still = [n for n in left if results[n].status == 'unknown']
+        if still:                       # a busy machine must not flip a verdict: retry what is still unknown with a larger budget
+            portfolio(still, P2_MS[tier] * 5)
         with cf.ProcessPoolExecutor(max_workers=workers) as ex:
             # counterexamples: re-run with witness constants; the contract's replay hints (small, representable values) first
             for n in left:
